@@ -272,6 +272,8 @@ Proof.
   - repeat split; assumption.
   - repeat split; assumption.
   - (* reload: same core, empty stacks *) repeat split; [assumption|constructor|constructor].
+  - (* input: only the variable _inputs changes *) repeat split; assumption.
+  - (* rejected load *) repeat split; assumption.
   - repeat split; assumption.
   - repeat split; assumption.
 Qed.
